@@ -490,7 +490,14 @@ MsgExtraBodies == <<
 \* as start tag, end tag, self-closing tag and start tag with an attribute.
 \* The name is what precedes the first non-alphanumeric character, LOWER-CASED;
 \* then the table; then START_/END_ and upper-casing.
-MsgTagNames == << "textarea", "TEXTAREA", "TextArea", "textArea", "Textarea", "NoBr", "IFrame", "TBody",
+\* Boundary inputs of the fingerprint routine (which re-maps the fingerprints 0
+\* and 1): texts whose 32-bit hash with seed 0 is 0, and texts whose hash with
+\* seed 102072 is 0 or 1 (found by search; the harness checks that they are
+\* such, with its own implementation, and searches for more at run time).
+MsgWitnessBodies == << <<MText("ahyibdjr")>>, <<MText("anutneso")>>, <<MText("aolouwdz")>>,
+                       <<MText("aetaidqo")>>, <<MText("aexahrdv")>>, <<MText("afoyiauh")>> >>
+
+MsgTagNames == << "h0", "h2", "h3", "h4", "h5", "h6", "h7", "h8", "h9", "z9a0", "Az09", "textarea", "TEXTAREA", "TextArea", "textArea", "Textarea", "NoBr", "IFrame", "TBody",
                   "h1", "H1", "x-foo", "X-Foo", "svg:rect", "SVG:Rect", "A", "Img", "BR", "eM", "Ul" >>
 MsgTagBodies ==
   [i \in 1..Len(MsgTagNames) |->
@@ -528,7 +535,32 @@ MsgExprBodies == <<
      MPrint(MsgBin("elvis", MsgVar("a"), MsgStr("x"))), MPrint(MsgBin("and", MsgVar("a"), MsgVar("b"))) >>
 >>
 
-MsgAllExtraBodies == MsgExtraBodies \o MsgTagBodies \o MsgExprBodies
+\* Word boundaries at EVERY letter: for each capital L a name with L after a
+\* lower-case letter, after a digit, after another capital, at the start and
+\* at the end (one body per capital); then the letters and digits at the ends of
+\* the ranges; then acronyms / runs of capitals of length 2..4 at the start, in
+\* the middle and at the end, with digits and with underscores already there --
+\* as variables, as last segment of a data reference, as global.
+\* (userID -> USERID, theXMLHttp -> THEXML_HTTP: a boundary is in front of a
+\* capital only if a lower-case letter FOLLOWS it.)
+MsgCapBodies ==
+  [i \in 1..26 |->
+     LET L == MsgCh(MsgUpperS, i) IN
+     << MsgP("x" \o L \o "y"), MsgP("x9" \o L \o "y"), MsgP("xQ" \o L \o "y"), MsgP(L \o "yz"), MsgP("xy" \o L),
+        MsgP("p" \o L \o "q" \o L \o "r") >>]
+MsgEdgeBody ==
+  << MsgP("a0a"), MsgP("z9z"), MsgP("aAz"), MsgP("zZa"), MsgP("a0Zz"), MsgP("z9Aa"), MsgP("A0"), MsgP("Z9"),
+     MsgP("x0"), MsgP("x9"), MsgP("q0w9e") >>
+MsgAcronymBodies == <<
+  << MsgP("userID"), MsgP("theXMLHttp"), MsgP("XMLHttp"), MsgP("getHTTPResponse2Code"), MsgP("ID"), MsgP("anID") >>,
+  << MsgP("aBCd"), MsgP("aBCDe"), MsgP("aBCDEf"), MsgP("ABcd"), MsgP("ABCd"), MsgP("ABCDe"), MsgP("abCD"), MsgP("abCDE") >>,
+  << MsgP("x_ID_y"), MsgP("user_ID9"), MsgP("HTMLParser"), MsgP("parseHTML"), MsgP("parse_HTML_2x"), MsgP("a1B2c3"), MsgP("A1b2C3") >>,
+  << MsgPK("a", "userID"), MsgPK("a", "theXMLHttp"), MPrint(MsgGlobal("app.userID")), MPrint(MsgGlobal("app.cfg.theXMLHttp")),
+     MPrint(MsgRef("a", <<MsgKeyNs("getHTTPCode")>>)) >>
+>>
+
+MsgAllExtraBodies == MsgExtraBodies \o MsgTagBodies \o MsgExprBodies \o MsgCapBodies \o <<MsgEdgeBody>> \o MsgAcronymBodies
+                     \o MsgWitnessBodies
 
 \* Message text is a sequence of BYTES (a template need not be valid UTF-8: a
 \* file saved as Latin-1 has one byte >= 128 per accented letter).  The id is a
